@@ -69,6 +69,13 @@ func intParts(quick bool) []string {
 	return s.list
 }
 
+// wrapFractions: the front-ends keep the leading zeros of a fraction by adding
+// the divisor 10^k to the accumulated digits; for 19 digits that sum passes
+// 2^64 from 8446744073709551616 on, and the switch to the textual form comes
+// at 9223372036854775800. Both ends of that window and a value inside it, and
+// the same for 18 digits (where nothing may wrap).
+var wrapFractions = []string{"8446744073709551615", "8446744073709551616", "9000000000000000001", "9223372036854775799", "844674407370955161", "844674407370955162"}
+
 // fracParts lists the fraction digit strings ("" = no fraction), duplicate-free.
 func fracParts(quick bool) []string {
 	var s strSet
@@ -100,6 +107,9 @@ func fracParts(quick bool) []string {
 			"9223372036854775800", "09223372036854775808"} {
 			s.add(b)
 		}
+		for _, b := range wrapFractions {
+			s.add(b)
+		}
 		return s.list
 	}
 	for _, f := range []string{"125", "0625", "123456789", "10", "100", "50"} {
@@ -129,6 +139,10 @@ func fracParts(quick bool) []string {
 	// leading zeros up to the total bound
 	for _, z := range []int{10, 17, 18, 19, 20, 21} {
 		s.add(rep("0", z) + rep("9", 23-z))
+	}
+	for _, b := range wrapFractions {
+		s.add(b)
+		s.add("0" + b)
 	}
 	// the accumulator thresholds (BigLimit, MaxInt64, MaxUint64) apply to the fraction digits as well
 	for _, b := range []string{"9223372036854775806", "9223372036854775807", "9223372036854775808",
